@@ -101,7 +101,7 @@ def check_case(ctx, case):
             return 'style sheet is not the built-in sheet followed by exactly the legend rules: tail %r' % css[len(bcss):][:200]
         rb = ctx.conv(gen.text_of(body).replace('\n', '\r\n') if case.get('crlf') else gen.text_of(body), flags=2, scale=sc_)
         sb = Scene(rb.out)
-        ua, ub = multiset_match(sb.els, sc.els, F(0))
+        ua, ub = multiset_match(sb.leaves(), sc.leaves(), F(0))
         if ua or ub or (sb.W, sb.H) != (sc.W, sc.H):
             return 'the legend is drawn or changes the drawing: only without legend %s; only with legend %s' % (
                 [show_el(e) for e in ua[:3]], [show_el(e) for e in ub[:3]])
